@@ -19,7 +19,7 @@ pub fn meta() -> Meta {
     Meta {
         id: "C09",
         level: "exploration",
-        rule: "for all 30 valid k x both strand modes x input families {generic pool; all split k-mers fit in 64 bits (k>=33: records of length k starting with k-33 A's, verified by the model to be < 2^64); mixed fitting + non-fitting samples; a 3 kb genome (thousands of k-mers); at k in {31,33} (both strands) two diverged 70 kb genomes (more than 2^17 rows)}: `ska build` then every subcommand on the saved file through the CLI — nk --full-info (incl. k_bits), align (plain and with every flag), map aln+vcf, distance (plain and with its flags), weed (sequence file, --reverse, and the filter flags), delete, merge with a second file in both orders (fitting/non-fitting in both orders; a second file reduced by a filter; a second file emptied of all k-mers) and the empty-after-filter file — each compared with what the model derives from the source sequences; every stored field is read back with the independent mirror decoder. Non-trivial = a CLI command on a non-empty file; distinct outcomes = distinct expected outputs. At k in {5,7,17,31,33,35,63} (thorough: every k) the whole family is run a second time through the dev-profile build of the CLI (debug assertions and arithmetic overflow checks on): same verdict required. The saved file is additionally read under names that do not end in .skf (`cleaned`, `x.skf.bak`) by nk, align, map, distance, merge and delete, and align/map/distance are run with -o: same results.".into(),
+        rule: "for all 30 valid k x both strand modes x input families {generic pool; all split k-mers fit in 64 bits (k>=33: records of length k starting with k-33 A's, verified by the model to be < 2^64); mixed fitting + non-fitting samples; a 3 kb genome (thousands of k-mers); at k=17 300 samples; at k in {31,33} (both strands) two diverged 70 kb genomes (more than 2^17 rows)}: `ska build` then every subcommand on the saved file through the CLI — nk --full-info (incl. k_bits), align (plain and with every flag), map aln+vcf, distance (plain and with its flags), weed (sequence file, --reverse, and the filter flags), delete, merge with a second file in both orders (fitting/non-fitting in both orders; a second file reduced by a filter; a second file emptied of all k-mers) and the empty-after-filter file — each compared with what the model derives from the source sequences; every stored field is read back with the independent mirror decoder. Non-trivial = a CLI command on a non-empty file; distinct outcomes = distinct expected outputs. At k in {5,7,17,31,33,35,63} (thorough: every k) the whole family is run a second time through the dev-profile build of the CLI (debug assertions and arithmetic overflow checks on): same verdict required. The saved file is additionally read under names that do not end in .skf (`cleaned`, `x.skf.bak`) by nk, align, map, distance, merge and delete, and align/map/distance are run with -o: same results.".into(),
         assumptions: vec!["the model stands in for 'the in-memory data it was saved from' (their agreement is C01/C06/C07/C08/C13/C14's subject)".into()],
         exhaustive_when_uncapped: true,
     }
@@ -61,6 +61,23 @@ fn families(k: usize, seed: u64, thorough: bool) -> Vec<Fam> {
     let mut big2 = big.clone();
     big2[1500] = comp(big2[1500]);
     v.push(Fam { name: "3kb genome", samples: vec![vec![big], vec![big2]], other: vec![pool[0].clone()] });
+    if k == 17 {
+        // 300 samples (more than 2^8 sample columns): sample i carries substitutions at the positions of the set bits of i+1
+        let g = repeat_free(12 * k, k, 0, seed + 7);
+        let many: Vec<Vec<Vec<u8>>> = (0..300usize)
+            .map(|i| {
+                let mut s = g.clone();
+                for bit in 0..9 {
+                    if ((i + 1) >> bit) & 1 == 1 {
+                        let p = k + bit * (k + 2);
+                        s[p] = comp(s[p]);
+                    }
+                }
+                vec![if i % 3 == 1 { rc_str(&s) } else { s }]
+            })
+            .collect();
+        v.push(Fam { name: "300 samples", samples: many, other: vec![pool[0].clone(), pool[1].clone()] });
+    }
     if [31usize, 33].contains(&k) {
         // more rows than 2^17: a 70 kb genome and a copy with a substitution every 23 bases of its first 40 kb, so that anything done in blocks of rows meets several blocks
         static HUGE: std::sync::OnceLock<Vec<u8>> = std::sync::OnceLock::new();
@@ -575,7 +592,7 @@ pub fn run(ctx: &Ctx, rep: &mut Report) {
     for k in ks {
         for rc in [true, false] {
             for fam in families(k, ctx.seed, thorough) {
-                if fam.name == "70kb genomes" && !rc {
+                if (fam.name == "70kb genomes" || fam.name == "300 samples") && !rc {
                     continue;
                 }
                 idx += 1;
@@ -597,7 +614,7 @@ pub fn run(ctx: &Ctx, rep: &mut Report) {
                 rep.corner(fam.name);
                 // the same family through the dev-profile build of the CLI (arithmetic overflow checks on) at the
                 // extreme k, the default k and around the 64/128-bit boundary (thorough: every k)
-                if (thorough || [5usize, 7, 17, 31, 33, 35, 63].contains(&k)) && fam.name != "70kb genomes" && cli::set_debug_profile(true) {
+                if (thorough || [5usize, 7, 17, 31, 33, 35, 63].contains(&k)) && fam.name != "70kb genomes" && fam.name != "300 samples" && cli::set_debug_profile(true) {
                     let bad = check_family(rep, k, rc, &fam, &scratch::path("c09"));
                     for (step, msg) in bad {
                         rep.violate(
